@@ -262,6 +262,13 @@ func (ic *importClient) Shutdown() {
 	}
 	defer ic.c.tasks.Done()
 	ent := ic.c.imports[ic.id]
+	if ent == nil {
+		// A client of a later generation was created and shut down while
+		// this Shutdown was waiting for the lock: it has already removed
+		// the entry and sent the Release.
+		ic.c.mu.Unlock()
+		return
+	}
 	if ic.generation != ent.generation {
 		// A new reference was added concurrently with the Shutdown.  See
 		// impent.generation documentation for an explanation.
